@@ -14,6 +14,7 @@ RULE = (
     "a year end +-10 days plus a strided sample; plus intraday pairs around midnight. call (generated): RunPeriod.__call__ through a Backtest-built index (synthetic row included) for random "
     "indices (any spacing, intraday, year boundaries) and all 8 flag combinations: False on the synthetic row and outside the data, first/last date governed by their flags, otherwise the "
     "oracle on (now, previous|next). counting (generated): RunOnce/RunOnDate/RunAfterDate/RunAfterDays/RunEveryNPeriods against 5-line references on generated call sequences. "
+    "combined (generated): 2-4 schedulers (calendar with flags, RunOnDate, RunAfterDate, counting ones, Not of one) joined by Or, or placed one after the other in a stack, inside a real Backtest with a recording algo behind the gate: the stack passes the gate exactly on the union (intersection) of the dates each member fires on when called once per date. "
     "non-trivial = the index contains a boundary of the tested kind (call) / the pair lies in different periods (compare). distinct = distinct cases."
 )
 ASSUMPTIONS = ["first and last dates are governed by their flags only (pinned by the repository's test_run_period)", "week = ISO week (what pandas' Timestamp.week returns)"]
@@ -267,10 +268,149 @@ def counting_spec(draw):
     return {"dates": ds, "algo": kind, "calls": calls, "params": params}
 
 
-SUBS = {"compare": case_compare, "call": case_call, "counting": case_counting}
-STRATS = {"call": call_spec, "counting": counting_spec}
+# ---- generated: schedulers combined through Or / Not / nested stacks inside a real backtest ----------
+def ref_member(m, real):
+    """firing pattern of one scheduler over the real dates of a backtest (one call per date, in date order)"""
+    kind, p = m["algo"], m.get("params", {})
+    n = len(real)
+    if kind == "Not":
+        return [not x for x in ref_member(m["of"], real)]
+    if kind in ALGOS:
+        out = []
+        for j in range(n):
+            if j == 0:
+                out.append(bool(p.get("run_on_first_date", True)))
+            elif j == n - 1:
+                out.append(bool(p.get("run_on_last_date", False)))
+            else:
+                other = real[j + 1] if p.get("run_on_end_of_period", False) else real[j - 1]
+                out.append(key(kind, real[j]) != key(kind, other))
+        return out
+    if kind == "RunOnce":
+        return [j == 0 for j in range(n)]
+    if kind == "RunOnDate":
+        return [j in p["on"] for j in range(n)]
+    if kind == "RunAfterDate":
+        return [pd.Timestamp(real[j]) > pd.Timestamp(p["date"]) for j in range(n)]
+    if kind == "RunAfterDays":
+        return [j >= p["days"] for j in range(n)]
+    if kind == "RunEveryNPeriods":
+        return [j >= p["offset"] and (j - p["offset"]) % p["n"] == 0 for j in range(n)]
+    raise ValueError(kind)
+
+
+def mk_member(A, m, ds):
+    kind, p = m["algo"], m.get("params", {})
+    if kind == "Not":
+        return A.Not(mk_member(A, m["of"], ds))
+    if kind in ALGOS:
+        return getattr(A, kind)(**p)
+    if kind == "RunOnce":
+        return A.RunOnce()
+    if kind == "RunOnDate":
+        return A.RunOnDate(*[ds[i] for i in p["on"]])
+    if kind == "RunAfterDate":
+        return A.RunAfterDate(p["date"])
+    if kind == "RunAfterDays":
+        return A.RunAfterDays(p["days"])
+    return A.RunEveryNPeriods(p["n"], p["offset"])
+
+
+def case_combined(ctx, spec):
+    """Every member of an Or is a scheduler in its own right: it must fire exactly on its own dates whatever the other members
+    answer, so the combination passes the stack exactly on the union of the members' dates (Not: the complement)."""
+    bt = ctx.bt
+    A = bt.algos
+    ds = spec["dates"]
+    real = [dt.datetime.fromisoformat(d) for d in ds]
+    members = spec["members"]
+    passed = []
+
+    def rec(target):
+        passed.append(target.now)
+        return True
+
+    built = [mk_member(A, m, ds) for m in members]
+    gate = A.Or(built) if spec["combine"] == "or" else None
+    if spec["combine"] == "or":
+        stack = [gate, rec]
+        refs = [ref_member(m, real) for m in members]
+        exp = [any(r[j] for r in refs) for j in range(len(real))]
+    else:  # "and": consecutive algos of one stack; a later member is only called while all earlier ones passed -> only stateless members follow
+        stack = built + [rec]
+        refs = [ref_member(m, real) for m in members]
+        exp = [all(r[j] for r in refs) for j in range(len(real))]
+    data = interp.mk_frame(ds, {"a": [100.0 + i for i in range(len(ds))]})
+    b = bt.Backtest(bt.Strategy("s", stack), data, progress_bar=False)
+    b.run()
+    got = [pd.Timestamp(d) in set(passed) for d in real]
+    if len(passed) != len(set(passed)):
+        raise Violation("the stack passed the gate twice on one date: %s" % passed, signature="combined:twice")
+    if got != exp:
+        j = [a != b_ for a, b_ in zip(got, exp)].index(True)
+        raise Violation(
+            "%s of %s over %s: the stack %s the gate on %s (date #%d), expected %s; members alone fire on %s" % (spec["combine"], members, ds, "passed" if got[j] else "did not pass", ds[j], j, exp[j], [[k for k, x in enumerate(r) if x] for r in refs]),
+            signature="combined:%s" % spec["combine"],
+        )
+    counting = [m["algo"] for m in members if m["algo"] in ("RunOnce", "RunAfterDays", "RunEveryNPeriods")]
+    # non-trivial: a counting member sits behind a member that fires on some date before the counting member's own pattern is exhausted
+    nt = False
+    if spec["combine"] == "or":
+        for k, m in enumerate(members):
+            if m["algo"] in ("RunOnce", "RunAfterDays", "RunEveryNPeriods") and any(any(refs[q][j] for q in range(k)) for j in range(len(real))):
+                nt = True
+    else:
+        nt = 0 < sum(exp) < len(exp)
+    return {"nontrivial": nt, "labels": [spec["combine"]] + sorted(set(counting)) + (["not"] if any(m["algo"] == "Not" for m in members) else [])}
+
+
+@st.composite
+def member_spec(draw, n, stateless=False, depth=0):
+    kinds = list(ALGOS) + ["RunOnDate", "RunAfterDate"] + ([] if stateless else ["RunOnce", "RunAfterDays", "RunEveryNPeriods", "RunAfterDays", "RunEveryNPeriods"]) + (["Not"] if depth == 0 else [])
+    kind = draw(st.sampled_from(kinds))
+    if kind == "Not":
+        return {"algo": "Not", "of": draw(member_spec(n, stateless=stateless, depth=1))}
+    if kind in ALGOS:
+        return {"algo": kind, "params": draw(gen.FLAGS)}
+    if kind == "RunOnce":
+        return {"algo": kind}
+    if kind == "RunOnDate":
+        return {"algo": kind, "params": {"on": sorted(draw(st.lists(st.integers(0, n - 1), min_size=0, max_size=min(n, 4), unique=True)))}}
+    if kind == "RunAfterDate":
+        return {"algo": kind, "params": {"date": None}}  # filled by the caller
+    if kind == "RunAfterDays":
+        return {"algo": kind, "params": {"days": draw(st.integers(0, n))}}
+    nn = draw(st.integers(1, 5))
+    return {"algo": kind, "params": {"n": nn, "offset": draw(st.integers(0, 2 * nn))}}
+
+
+@st.composite
+def combined_spec(draw):
+    ds = draw(gen.dates(3, 24, kinds=("bday", "daily", "mixed", "sparse")))
+    n = len(ds)
+    combine = draw(st.sampled_from(["or", "or", "or", "and"]))
+    k = draw(st.integers(2, 4))
+    if combine == "or":
+        members = [draw(member_spec(n)) for _ in range(k)]
+    else:
+        members = [draw(member_spec(n))] + [draw(member_spec(n, stateless=True)) for _ in range(k - 1)]
+
+    def fill(m):
+        if m["algo"] == "Not":
+            fill(m["of"])
+        elif m["algo"] == "RunAfterDate":
+            m["params"]["date"] = (dt.datetime.fromisoformat(draw(st.sampled_from(ds))) + dt.timedelta(days=draw(st.sampled_from([0, 0, -1, 1])))).isoformat()
+
+    for m in members:
+        fill(m)
+    return {"dates": ds, "combine": combine, "members": members}
+
+
+SUBS = {"compare": case_compare, "call": case_call, "counting": case_counting, "combined": case_combined}
+STRATS = {"call": call_spec, "counting": counting_spec, "combined": combined_spec}
 
 
 def shard(ctx):
     run_sub(ctx, "call", call_spec(), lambda s: case_call(ctx, s), ctx.n(3000, 60000))
     run_sub(ctx, "counting", counting_spec(), lambda s: case_counting(ctx, s), ctx.n(3000, 60000))
+    run_sub(ctx, "combined", combined_spec(), lambda s: case_combined(ctx, s), ctx.n(1600, 32000))
